@@ -500,6 +500,12 @@ func (w *shapeWalker) object(t types.Type, s *openapi3.Schema, key, where string
 	}
 	o := w.jp.Objects[n.Obj().Name()]
 	if o == nil {
+		// a component that is a $ref to another component: `type B A` with both JSON
+		// methods delegating to A's
+		if tgt := delegateTarget(p, n); tgt != nil {
+			w.object(tgt, s, key, where)
+			return
+		}
 		if len(s.Properties) == 0 && len(s.AllOf) == 0 {
 			return
 		}
@@ -915,4 +921,67 @@ func (w *shapeWalker) bodySite(ok bool, key, pos, detail string) {
 	} else {
 		w.r.Violation(w.rule("body-sites"), key, pos, detail)
 	}
+}
+
+// delegateTarget: n is declared `type n T` (T a named type of the package with a generated
+// codec) and n's MarshalJSON / UnmarshalJSON are exactly
+//   func (c n) MarshalJSON() ([]byte, error) { return T(c).MarshalJSON() }
+//   func (c *n) UnmarshalJSON(bs []byte) error { return (*T)(c).UnmarshalJSON(bs) }
+func delegateTarget(p *Program, n *types.Named) *types.Named {
+	info := p.Pkg.TypesInfo
+	var target *types.Named
+	ok := 0
+	for _, name := range []string{"MarshalJSON", "UnmarshalJSON"} {
+		fd := p.funcDecl(n.Obj().Name(), name)
+		if fd == nil || fd.Body == nil || len(fd.Body.List) != 1 || fd.Recv == nil || len(fd.Recv.List[0].Names) != 1 {
+			return nil
+		}
+		recv := info.Defs[fd.Recv.List[0].Names[0]]
+		ret, isRet := fd.Body.List[0].(*ast.ReturnStmt)
+		if !isRet || len(ret.Results) != 1 {
+			return nil
+		}
+		call, isCall := ret.Results[0].(*ast.CallExpr)
+		if !isCall {
+			return nil
+		}
+		sel, isSel := call.Fun.(*ast.SelectorExpr)
+		if !isSel || sel.Sel.Name != name {
+			return nil
+		}
+		conv, isConv := ast.Unparen(sel.X).(*ast.CallExpr)
+		if !isConv || len(conv.Args) != 1 || identObj(info, conv.Args[0]) != recv {
+			return nil
+		}
+		tv, isType := info.Types[conv.Fun]
+		if !isType || !tv.IsType() {
+			return nil
+		}
+		t := tv.Type
+		if pt, isPtr := t.(*types.Pointer); isPtr {
+			t = pt.Elem()
+		}
+		tn, isNamed := types.Unalias(t).(*types.Named)
+		if !isNamed || tn == n || !types.Identical(tn.Underlying(), n.Underlying()) {
+			return nil
+		}
+		if name == "UnmarshalJSON" {
+			// the argument must be handed on unchanged
+			ps := paramObjs(info, fd)
+			if len(ps) != 1 || len(call.Args) != 1 || identObj(info, call.Args[0]) != ps[0] {
+				return nil
+			}
+		} else if len(call.Args) != 0 {
+			return nil
+		}
+		if target != nil && target != tn {
+			return nil
+		}
+		target = tn
+		ok++
+	}
+	if ok == 2 {
+		return target
+	}
+	return nil
 }
